@@ -19,7 +19,7 @@ from supp.assistant import assist, location
 from supp.project import Project
 
 KINDS_X = ('none', 'classvar', 'method', 'property', 'init-assign', 'method-assign', 'lazy-assign')
-KINDS_X2 = KINDS_X + ('for-assign', 'with-assign')     # assignment through a for / with target (small hierarchies only)
+KINDS_X2 = KINDS_X + ('for-assign', 'with-assign', 'property-setter')     # assignment through a for / with target (small hierarchies only)
 KINDS_Y = ('none', 'classvar', 'method-assign')
 BUILTIN_BASES = ('object', 'dict', 'Exception')
 
@@ -32,6 +32,7 @@ class Hier(object):
         self.ax = ax          # name of the first attribute: 'x', or a name the builtin base defines too (keys, args, __eq__)
         self.lines = []
         self.sites = {}      # (class idx, attr) -> ('class'|'inst', (line, col))
+        self.alt_sites = {}  # second acceptable position (getter of a property with a setter)
         self.render()
 
     def emit(self, s):
@@ -68,6 +69,16 @@ class Hier(object):
                     ln = self.emit('    def %s(self):' % attr)
                     self.emit('        return %d' % i)
                     self.sites[(i, attr)] = ('class', (ln, 8))
+                elif k == 'property-setter':
+                    # a data descriptor: wins over the instance dictionary, `self.x = ..` anywhere goes through the setter
+                    self.emit('    @property')
+                    self.emit('    def %s(self):' % attr)
+                    self.emit('        return %d' % i)
+                    self.emit('    @%s.setter' % attr)
+                    ln = self.emit('    def %s(self, v):' % attr)
+                    self.emit('        self.stored_%s%d = v' % (attr.strip('_'), i))
+                    self.sites[(i, attr)] = ('class', (ln, 8))
+                    self.alt_sites[(i, attr)] = (ln - 3, 8)
                 elif k == 'init-assign':
                     init.append(attr)
                 elif k == 'lazy-assign':
@@ -173,6 +184,13 @@ def ground_truth(h):
         gt['inst_sites'][attr] = [h.sites[(i, attr)][1] for i in mro if (i, attr) in h.sites and h.sites[(i, attr)][0] == 'inst']
     for i in mro:
         gt['class_names'] |= {n for n in vars(ns['C%d' % i]) if not n.startswith('__') or n == '__init__'}
+    def first_kind(attr):
+        for i in mro:
+            k = h.classes[i][1 if attr == h.ax else 2]
+            if k != 'none' and attr in vars(ns['C%d' % i]):
+                return k
+        return None
+    gt['data_descriptor'] = {attr: first_kind(attr) == 'property-setter' for attr in (h.ax, 'y')}
     gt['has_property'] = {attr: any(h.classes[i][1 if attr == h.ax else 2] == 'property' for i in mro) for attr in (h.ax, 'y')}
     return gt
 
@@ -258,6 +276,8 @@ def check_hier(h, root, part, imports=False):
                     continue
                 exp_inst = gt['inst_sites'][attr] if is_inst else []
                 exp_cls = gt['class_def'].get(attr)
+                if gt['data_descriptor'][attr]:
+                    exp_inst = []          # the property of the class is what the lookup finds, whatever was "assigned" through it
                 if not exp_inst and exp_cls is None:
                     continue
                 try:
@@ -276,7 +296,7 @@ def check_hier(h, root, part, imports=False):
                             'location on `%s.%s` (%s) gives %s; Python finds the instance attribute assigned at %s (mro %s)' % (rexpr, attr, rname, got or locs, exp_inst, gt['mro']))
                 else:
                     want = h.sites[(exp_cls, attr)][1]
-                    if got[:1] != [want]:
+                    if got[:1] != [want] and got[:1] != [h.alt_sites.get((exp_cls, attr))]:
                         add('definition:%s:expected-first-mro-class:got-%s' % (rname.split('-via-')[0] if 'via' in rname else rname, describe(h, got, exp_cls)),
                             'location on `%s.%s` (%s) gives %s; Python selects the definition in C%d at %s (mro %s)' % (rexpr, attr, rname, got or locs, exp_cls, want, gt['mro']))
     return out
